@@ -129,6 +129,13 @@ def cases(chk):
     for _ in range(chk.scale(60, 1500)):
         nt = r.choice([2, 2, 3])
         yield "concurrent", {"frames": [[r.choice(["ok", "ok", "fail"]) for _i in range(r.randint(1, 3))] for _t in range(nt)], "seed": r.randrange(1 << 30)}
+    # several frames coalesced / split by the network: failing frames anywhere in a chunk, chunk borders anywhere (also inside headers)
+    yield "coalesced", {"kinds": ["recv-ok", "recv-callback-raises", "recv-ok"], "cuts": [], "seed": 1}
+    yield "coalesced", {"kinds": ["recv-undecodable", "recv-ok", "recv-ok"], "cuts": [2], "seed": 2}
+    for _ in range(chk.scale(80, 2500)):
+        n = r.randint(2, 6)
+        yield "coalesced", {"kinds": [r.choice(["recv-ok", "recv-ok", "recv-undecodable", "recv-rejected", "recv-callback-raises"]) for _i in range(n)],
+                            "cuts": sorted(set(r.randrange(1, 40 * n) for _i in range(r.choice([0, 0, 1, 2, 4])))), "seed": r.randrange(1 << 30)}
     for _ in range(chk.scale(120, 3000)):
         n = r.randint(2, 7)
         ops = [r.choice(sk + rk) for _ in range(n)]
@@ -139,7 +146,7 @@ def cases(chk):
 
 
 def nontrivial(stream, case):
-    if stream == "concurrent":
+    if stream in ("concurrent", "coalesced"):
         return repr(case)
     return (tuple(case["ops"]), tuple(case["threads"]))
 
@@ -264,9 +271,58 @@ def run_concurrent(chk, case):
         tracked.install()
 
 
+def run_coalesced(chk, case):
+    """frames of the given kinds written back to back by the peer, cut into network chunks at the given offsets; every chunk is one
+    receive() at the bottom of the real stack.  A failing frame ends that call with the error; frames behind it in the same chunk are handled
+    by a later call at the latest (same rule as for the noise layer's queue).  After the stream, one fault-free frame per failure + 1 arrive."""
+    fails = []
+    stack, insts, bottom, top, noise = build()
+    kinds = list(case["kinds"])
+    nfail = sum(1 for k in kinds if k != "recv-ok")
+    kinds_all = kinds + ["recv-ok"] * (nfail + 1)
+    frames = []
+    for i, k in enumerate(kinds_all):
+        seq = i + 1
+        if k == "recv-callback-raises":
+            top.fail_from = tuple(top.fail_from) + ("%d@s.whatsapp.net" % (100000 + seq),)
+        body = noisefake.wire(_stanza_bytes(k, seq))
+        frames.append(_be24(len(body)) + body)
+    stream_bytes = b"".join(frames[:len(kinds)])
+    cuts = [c for c in case["cuts"] if 0 < c < len(stream_bytes)]
+    pts = [0] + cuts + [len(stream_bytes)]
+    chunks = [stream_bytes[a:b] for a, b in zip(pts, pts[1:])] + frames[len(kinds):]
+    raised = []
+    chk.hit("coalesced:frames=%d" % len(kinds), "coalesced:failing=%d" % nfail, "coalesced:chunks=%d" % min(9, len(cuts) + 1))
+    for ci, c in enumerate(chunks):
+        try:
+            _in_thread(lambda c=c: stack.receive(c), 0)
+        except tracked.BlockedForever as e:
+            fails.append(oracle("C12:blocks-forever", "coalesced %s cut at %s: receiving chunk #%d never completes: %s" % (kinds, cuts, ci, e)))
+            tracked.release_all()
+            return fails
+        except Exception as e:
+            raised.append(type(e).__name__)
+    want = ["%d@s.whatsapp.net" % (100000 + i + 1) for i, k in enumerate(kinds_all) if k == "recv-ok"]
+    got = [e.getFrom() for e in top.received if hasattr(e, "getFrom")]
+    ctx = "frames %s written back to back, stream cut at %s, then %d single fault-free frames" % (kinds, cuts, nfail + 1)
+    held = [l.name for l in tracked.held_locks()]
+    if held:
+        fails.append(oracle("C12:lock-leak:layer", "%s: these locks stay held: %s" % (ctx, ", ".join(held))))
+    elif got != want:
+        lost = [x for x in want if x not in got]
+        fails.append(oracle("C12:frames-lost-or-reordered", "%s: the application received %d of %d fault-free frames (%s); errors reported: %s"
+                            % (ctx, len(got), len(want), "missing " + ", ".join(lost[:4]) if lost else "order / duplicates differ: %s" % got[:8], raised)))
+    elif len(raised) != nfail:
+        fails.append(oracle("C12:error-not-reported", "%s: %d frames fail, %d errors were reported to the caller (%s)" % (ctx, nfail, len(raised), raised)))
+    tracked.release_all()
+    return fails
+
+
 def run_case(chk, stream, case):
     if stream == "concurrent":
         return run_concurrent(chk, case)
+    if stream == "coalesced":
+        return run_coalesced(chk, case)
     from yowsup.layers.protocol_presence.protocolentities import AvailablePresenceProtocolEntity, PresenceProtocolEntity
     fails = []
     stack, insts, bottom, top, noise = build()
@@ -406,6 +462,14 @@ def run_case(chk, stream, case):
 
 def shrink(stream, case):
     if stream == "concurrent":
+        return
+    if stream == "coalesced":
+        ks, cuts = case["kinds"], case["cuts"]
+        for i in range(len(ks)):
+            if len(ks) > 1:
+                yield dict(case, kinds=ks[:i] + ks[i + 1:])
+        for i in range(len(cuts)):
+            yield dict(case, cuts=cuts[:i] + cuts[i + 1:])
         return
     ops, th = case["ops"], case["threads"]
     for i in range(len(ops)):
